@@ -73,6 +73,8 @@ func sortToType(s string) types.Type {
 		return types.Typ[types.Uint64]
 	case "bytes":
 		return types.NewSlice(types.Typ[types.Uint8])
+	case "strs":
+		return types.NewSlice(types.Typ[types.String])
 	}
 	return nil
 }
@@ -604,6 +606,14 @@ func (c *specCtx) call(x *ECall) sval {
 	case "allocated":
 		v := c.eval(x.Args[0])
 		return sval{term: "(<= " + v.term + " " + c.cur.alloc + ")", typ: tBool, sort: "Bool"}
+	case "implements":
+		// implements(x, T): the dynamic type of interface value x implements interface T
+		v := c.eval(x.Args[0])
+		t := c.typeExpr(x.Args[1])
+		return sval{term: "(" + fx.implPred(t) + " " + v.term + ")", typ: tBool, sort: "Bool"}
+	case "zero":
+		t := c.typeExpr(x.Args[0])
+		return sval{term: fx.d.Zero(t), typ: t, sort: fx.d.SortOf(t)}
 	case "upd":
 		a := c.eval(x.Args[0])
 		k := c.eval(x.Args[1])
